@@ -24,18 +24,14 @@ import (
 	"crypto"
 	"crypto/ecdsa"
 	"crypto/ed25519"
-	"crypto/elliptic"
-	"crypto/rand"
 	"crypto/rsa"
 	"crypto/tls"
 	"crypto/x509"
-	"crypto/x509/pkix"
 	"encoding/asn1"
 	"errors"
 	"fmt"
 	"io"
 	"math/big"
-	"net"
 	"strings"
 	"sync"
 	"testing"
@@ -220,92 +216,24 @@ var (
 
 func c03GetKeyCreds() *c03KeyCreds {
 	c03KeyCredsOnce.Do(func() {
-		caKey, err := ecdsa.GenerateKey(elliptic.P256(), rand.Reader)
-		if err != nil {
-			panic(err)
-		}
-		notBefore := time.Date(1970, 1, 1, 0, 0, 0, 0, time.UTC)
-		notAfter := time.Date(2100, 1, 1, 0, 0, 0, 0, time.UTC)
-		caTpl := &x509.Certificate{
-			SerialNumber: big.NewInt(1), Subject: pkix.Name{CommonName: "verif-c03-ca"},
-			NotBefore: notBefore, NotAfter: notAfter, IsCA: true, BasicConstraintsValid: true,
-			KeyUsage: x509.KeyUsageCertSign | x509.KeyUsageDigitalSignature,
-		}
-		caDER, err := x509.CreateCertificate(rand.Reader, caTpl, caTpl, &caKey.PublicKey, caKey)
-		if err != nil {
-			panic(err)
-		}
-		ca, _ := x509.ParseCertificate(caDER)
+		// fixed credentials (zz_verif_c03_creds_test.go): nothing here depends on the process's randomness
 		pool := x509.NewCertPool()
-		pool.AddCert(ca)
-		out := &c03KeyCreds{Pool: pool, Server: map[string]tls.Certificate{}, Client: map[string]tls.Certificate{}}
-		serial := int64(2)
-		for _, kt := range []string{"ecdsa", "rsa", "ed25519"} {
-			for _, role := range []string{"server", "client"} {
-				var priv crypto.Signer
-				switch kt {
-				case "ecdsa":
-					priv, err = ecdsa.GenerateKey(elliptic.P256(), rand.Reader)
-				case "rsa":
-					priv, err = rsa.GenerateKey(rand.Reader, 2048)
-				default:
-					_, priv, err = ed25519.GenerateKey(rand.Reader)
-				}
-				if err != nil {
-					panic(err)
-				}
-				name := role + ".verif"
-				tpl := &x509.Certificate{
-					SerialNumber: big.NewInt(serial), Subject: pkix.Name{CommonName: name}, DNSNames: []string{name},
-					NotBefore: notBefore, NotAfter: notAfter, KeyUsage: x509.KeyUsageDigitalSignature,
-					ExtKeyUsage: []x509.ExtKeyUsage{x509.ExtKeyUsageServerAuth, x509.ExtKeyUsageClientAuth},
-				}
-				serial++
-				der, cerr := x509.CreateCertificate(rand.Reader, tpl, ca, priv.Public(), caKey)
-				if cerr != nil {
-					panic(cerr)
-				}
-				leaf, _ := x509.ParseCertificate(der)
-				crt := tls.Certificate{Certificate: [][]byte{der}, PrivateKey: priv, Leaf: leaf}
-				if role == "server" {
-					out.Server[kt] = crt
-				} else {
-					out.Client[kt] = crt
-				}
-			}
+		pool.AddCert(vPemCert(c03PemCA))
+		out := &c03KeyCreds{
+			Pool: pool, Server: map[string]tls.Certificate{}, Client: map[string]tls.Certificate{},
+			Named: map[string]tls.Certificate{},
 		}
-		out.Named = map[string]tls.Certificate{}
-		for _, nm := range []string{"dns", "dnsother", "ip4", "ip4other", "ip6", "ip6other"} {
-			_, priv, kerr := ed25519.GenerateKey(rand.Reader)
-			if kerr != nil {
-				panic(kerr)
-			}
-			tpl := &x509.Certificate{
-				SerialNumber: big.NewInt(serial), Subject: pkix.Name{CommonName: "name-" + nm},
-				NotBefore: notBefore, NotAfter: notAfter, KeyUsage: x509.KeyUsageDigitalSignature,
-				ExtKeyUsage: []x509.ExtKeyUsage{x509.ExtKeyUsageServerAuth, x509.ExtKeyUsageClientAuth},
-			}
-			serial++
-			switch nm {
-			case "dns":
-				tpl.DNSNames = []string{"server.verif"}
-			case "dnsother":
-				tpl.DNSNames = []string{"other.example"}
-			case "ip4":
-				tpl.IPAddresses = []net.IP{net.ParseIP("192.0.2.10")}
-			case "ip4other":
-				tpl.IPAddresses = []net.IP{net.ParseIP("192.0.2.99")}
-			case "ip6":
-				tpl.IPAddresses = []net.IP{net.ParseIP("2001:db8::10")}
+		for name, ck := range c03PemLeaves {
+			crt := vKeyPair(ck[0], ck[1])
+			role, kind, _ := strings.Cut(name, "/")
+			switch role {
+			case "server":
+				out.Server[kind] = crt
+			case "client":
+				out.Client[kind] = crt
 			default:
-				tpl.IPAddresses = []net.IP{net.ParseIP("2001:db8::99")}
+				out.Named[kind] = crt
 			}
-			der, cerr := x509.CreateCertificate(rand.Reader, tpl, ca, priv.Public(), caKey)
-			if cerr != nil {
-				panic(cerr)
-			}
-			leaf, _ := x509.ParseCertificate(der)
-			out.Named[nm] = tls.Certificate{Certificate: [][]byte{der}, PrivateKey: priv, Leaf: leaf}
 		}
 		c03KeyCredsVal = out
 	})
